@@ -20,8 +20,8 @@ CLAIMED = {
     "C04": ("Bounded model checking of parse_event sequences from a directly constructed parser state: port-free skeleton (rows per occurrence incl. rollbacks, start/end/item columns at spec offsets, item offsets) and one- and two-port states with and without Ice Climbers (presence bits, null padding of leader and follower incl. both absent, values in the right row and the right port, old framing without Frame Start/End).", NOTE + " Bounds: <= 3 frame occurrences, <= 2 items, one or two occupied ports (column sets held in typed stack objects), state built by a cfg(kani) constructor instead of parse_start; the 3.16 Ice Climbers and two-port variants are in the thorough tier.", T, "§5 C04"),
     "C05": ("Bounded model checking of game_start/game_end on raw blocks: every non-structural byte symbolic, every mapped field compared with the hand-transcribed spec offset, optional tails present iff the block is long enough, players listed per port type byte, raw block retained; Game End 1/2-byte blocks fully symbolic with exact Err condition, 6-byte blocks over a list of placement vectors.", NOTE + " Structural bytes (port types, UCF words, NUL positions, UID text, placement bytes) are assigned per harness variant: enumeration, not solver verdict, for those bytes. JSON text is outside.", T, "§5 C05"),
     "C06": ("Bounded model checking of panic freedom (Kani's default checks: panics, unwrap, index bounds, arithmetic overflow, slice ranges) of the reader units on arbitrary bytes and of parse_event on events inconsistent with the parser state (arbitrary frame id, port byte, follower flag, events the version lacks, splitter fields/sizes, truncated payloads).", NOTE + " Outside: stack overflow on nested metadata, ubjson::read_map (IndexMap/hashbrown and UTF-8 validation are intractable for CBMC), hangs beyond 'a successful step consumes >= 2 bytes', whole-file byte-level corruption.", T, "§5 C06"),
-    "C07": ("Bounded model checking that every .slp reader unit handed a truncated input returns Err and leaves the columns untouched: per-struct readers (every cut length), game_end, game_start (lengths around every layout-class boundary: accepted iff a layout class or longer than the newest), header, expect_bytes (every stream length and content against the four sequences peppi expects), parse_event (every cut of an event), parse_payloads, parse_start over a fragmenting stream; read() end to end on a small file cut at concrete positions (last byte, inside the metadata key; thorough: inside metadata, inside events).", NOTE + " .slpp truncation (tar/arrow2), metadata content and a symbolic cut offset over a whole file are outside (cut positions of the read-level harnesses are enumerated, not solver-chosen).", T, "§5 C07"),
-    "C08": ("Bounded model checking: readers consume exactly the spec size and ignore any trailing bytes for every version incl. > 3.16 and other majors (same harnesses as C03); an unknown event declared in the payload table is a no-op on every column at four positions (before frames, inside a frame, between frames, after Game End, between splitter chunks); longer Game Start blocks are accepted; parse_start accepts every version >= 3.16.0 (all majors) whose known events are declared longer than the newest layout and keeps the declared sizes.", NOTE + " The equality 'with vs without unknown events' follows from the no-op step by induction, which is argued, not solved.", T, "§5 C08"),
+    "C07": ("Bounded model checking that every .slp reader unit handed a truncated input returns Err and leaves the columns untouched: per-struct readers (every cut length), game_end, game_start (lengths around every layout-class boundary: accepted iff a layout class or longer than the newest), header, expect_bytes (every stream length and content against the four sequences peppi expects), parse_event (every cut of an event), parse_payloads, parse_start over a fragmenting stream; read() end to end on a small file cut at concrete positions (last byte, inside the metadata key, at the event boundary before the Game End of a one-frame file; thorough: inside events).", NOTE + " .slpp truncation (tar/arrow2), metadata content and a symbolic cut offset over a whole file are outside (cut positions of the read-level harnesses are enumerated, not solver-chosen).", T, "§5 C07"),
+    "C08": ("Bounded model checking: readers consume exactly the spec size and ignore any trailing bytes for every version incl. > 3.16 and other majors (same harnesses as C03); an unknown event declared in the payload table is a no-op on every column at four positions (before frames, inside a frame, between frames, after Game End, between splitter chunks); longer Game Start blocks are accepted; parse_start accepts every version >= 3.16.0 (all majors) whose known events are declared longer than the newest layout and keeps the declared sizes; an unknown event inside an open frame of a pre-3.0 Ice Climbers replay neither closes nor opens a frame.", NOTE + " The equality 'with vs without unknown events' follows from the no-op step by induction, which is argued, not solved.", T, "§5 C08"),
     "C09": ("Bounded model checking, complete over all 2^24 versions: assert_max_version is Err exactly above 3.16.0 (major, minor, patch order written out independently), and both writers return Err before producing any output exactly for those versions (record-and-stop sink / tar::Builder::new stub).", NOTE + " The .slpp writer harness is in the thorough tier.", T, "§5 C09"),
     "C10": ("Bounded model checking of the real slippi::read end to end on a small port-free 0.1 file: skip-frames path with seek and with hashed copy, doubled Game End, and the full path over unknown events all yield start/end equal to the file's raw blocks, zero frames, quirk flag, hash iff requested.", NOTE + " Concrete file skeleton (jump distance is concrete per harness: 4-6 bytes); std::io::copy is replaced by a plain read/write loop on the hashed skip path; metadata, .slpp and other versions' Game End sizes (covered by c01_game_end_size) are outside the read-level harnesses.", T, "§5 C10"),
     "C11": ("Bounded model checking: HashingReader feeds the hasher exactly the bytes each read returned for every fragmentation of the stream (recorder stub in place of Xxh3::update), seeking disables the digest, hashing off reports none; read() hashes the entire file in order on the skip and the full path.", NOTE + " XXH3 itself and the hex formatting are trusted (streaming contract); the hash surviving .slpp is outside.", T, "§5 C11"),
@@ -30,7 +30,7 @@ CLAIMED = {
     "C15": ("Bounded model checking of Frame::rollbacks against the definition (marked iff an earlier / later row has the same id; exactly one unmarked row per id) for every id sequence of length 0, 2, 4 (5 thorough) over six ids.", NOTE + " Longer sequences and ids above -118 are outside.", T, "§5 C15"),
     "C17": ("Same decomposition as C01 on the writer side: declared raw length equals emitted bytes (no end, one end, doubled end, items), gecko block emission equals gecko_codes_size for every actual size incl. completely full blocks, per-struct write/size agreement.", NOTE + " The whole-file fixed point write(read(write(g))) is not claimed.", T, "§5 C17"),
     "C19": ("Bounded model checking: fix_char equals the stated mapping and is idempotent for every Unicode scalar value (complete); for all contents of 10/16/31-byte fields the decoder is called exactly once with the bytes before the first NUL, None -> Err, Some -> that string; through the real game_start the byte range handed to the decoder for every port's name tag / netplay name / connect code starts at the spec offset and has the field's full width (fields without NUL, NUL in the last position, NUL at index 2).", NOTE + " encoding_rs's Shift-JIS tables are trusted (decoder replaced by a recorder); NUL positions in the game_start harnesses are three assigned patterns, not solver-chosen.", T, "§5 C19"),
-    "C20": ("Bounded model checking: gte/lt equal lexicographic order for all 2^40 inputs, gates monotone (complete); parse_u8 on all 1-3 character components over a 13-symbol alphabet (quick); FromStr rejection/acceptance vs a reference scanner for all strings of length 2-5 (thorough: 8-15 min each); format-version gate complete.", NOTE + " The Display->parse round trip is NOT decided: core::fmt under CBMC did not finish (60 min for all triples, 35 min for a single digit-count class); it is outside the claim.", T, "§5 C20"),
+    "C20": ("Bounded model checking: gte/lt equal lexicographic order for all 2^40 inputs, gates monotone (complete); parse_u8 on all 1-3 character components over a 13-symbol alphabet (quick); FromStr vs a reference scanner on `1.2.1` followed by one solver-chosen character (quick; two characters and the format version thorough) and for all strings of length 2-5 (thorough: 8-15 min each); format-version gate complete.", NOTE + " The Display->parse round trip is NOT decided: core::fmt under CBMC did not finish (60 min for all triples, 35 min for a single digit-count class); it is outside the claim.", T, "§5 C20"),
 }
 
 NOT_APPLICABLE = {
